@@ -67,7 +67,7 @@ MUTS = ['leaf_md', 'cont_md', 'setitem', 'append', 'delete', 'flag', 'nested', '
 
 
 def mutate(root, m):
-    a = root['a']
+    a = root['a'] if (isinstance(root, dict) and 'a' in root) else root
     if m == 'leaf_md':
         for p, n in nodes_of(a):
             if not isinstance(n, ComposedNode):
@@ -140,6 +140,13 @@ def c19_copy(split, pa1, va1, pa2, va2, pva, pb1, vb1, pb2, vb2, pvb, mdb, mut, 
     note(text=text, how=how, mutation=MUTS[mut])
     try:
         orig = _parse(text)
+        sub = split.get('sub', 0)
+        if sub >= 1:
+            orig = orig['a']                     # a sub-tree: its root carries flags of its own
+        if sub >= 2:
+            if not isinstance(orig, ComposedNode) or not len(orig._children):
+                return True
+            orig = list(orig._children.values())[0]   # a sub-tree whose root only INHERITS flags from the node above
         d0 = describe(orig)
         if how == 'deepcopy':
             cp = copy.deepcopy(orig)
@@ -164,7 +171,7 @@ def c19_copy(split, pa1, va1, pa2, va2, pva, pb1, vb1, pb2, vb2, pvb, mdb, mut, 
     if all_node_ids(orig) & all_node_ids(cp):
         note(shared='a node object is shared between copy and original')
         return False
-    if split.get('probe'):
+    if split.get('probe') and not split.get('sub'):
         if _merge_probe(orig) != _merge_probe(cp):
             note(probe='merge results differ')
             return False
@@ -201,6 +208,8 @@ def _splits(tier):
                 if tier == 'quick':
                     pre += ' and (mut %% 4 == %d)' % bits + ' and not mdb' * (not (bits == 3 and sh == 1)) + ' and side == (mut >= 4)'
                 out.append({'how': how, 'shape': sh, 'pairA': pa, 'pairB': pb, 'probe': tier != 'quick' or bits == 0, '_pre': pre})
+                if bits in (1, 3) and (tier != 'quick' or how == 'pickle' or sh == 0):
+                    out.append({'how': how, 'shape': sh, 'pairA': pa, 'pairB': pb, 'probe': False, 'sub': 1 + (bits == 1) * 1, '_pre': pre})
         for k in range(len(KINDS)):
             out.append({'how': how, 'kind': k, 'pairA': ['pd', 'ns'][k % 2], 'pairB': 'pd', 'probe': False,
                         '_pre': 'not pb1 and not pb2 and not mdb and mut %% 3 == %d and side == (mut >= 4)' % (k % 3)})
